@@ -1489,6 +1489,10 @@ func (e *Exec) judgeTx(p *pendingTx, bt *BuiltTx, pred *prediction, accepted boo
 			}
 			e.viol(prop, "handler.accepted_forbidden."+moduleOf(pred.FailMsg), entityOf(pred.FailMsg), "tx %s was accepted; the statements require refusal (%s): %s", desc, pred.HandlerWhy, msgJSON(e.Env, pred.FailMsg))
 			e.resync(r0.DeliverStores())
+		} else if pred.Stateless == Valid && tr.Codespace == "sdk" && tr.Code == 4 && tr.GasUsed == 0 && strings.Contains(tr.Log, "wrong number of signers") && hasNamedFeePayer(bt.Msgs) {
+			// refused, as it must be, but for the wrong reason: the transaction carries one correct signature per required
+			// signer (fee payer first, then the writer) and never reached the handler because the message lists other signers
+			e.viol("C15", "auth.signer_list_differs", entityOf(first), "tx %s, signed by [fee payer, writer], was refused before the handler (code %d/%s: %s): %s", desc, tr.Code, tr.Codespace, trunc(tr.Log, 160), msgJSON(e.Env, first))
 		}
 		return
 	case "unjudged":
@@ -1515,7 +1519,11 @@ func (e *Exec) judgeTx(p *pendingTx, bt *BuiltTx, pred *prediction, accepted boo
 			// who signs first decides who pays: a refused, correctly ordered [fee payer, writer] transaction is C15's business
 			prop = "C15"
 		}
-		if isStatelessRejection(tr) {
+		signerList := tr.Codespace == "sdk" && tr.Code == 4 && tr.GasUsed == 0 // "wrong number of signers": the message's signer list, not its limits
+		if signerList && hasNamedFeePayer(bt.Msgs) {
+			prop = "C15"
+		}
+		if isStatelessRejection(tr) && !signerList {
 			prop, class = "C16", "stateless.rejected_inside_limits"
 		} else if e.Prop == "C15" {
 			// the request is only refusable if a message of an earlier FAILED transaction had taken effect on the entity
